@@ -12,10 +12,12 @@ Print Assumptions C11_reserve_covers_runs.
 
 (* Every primitive stream whose unchecked runs fit the reserve is printed to the end without a store outside
    the buffer: fixed buffers of every size from the reserve up, growing buffers of every initial size, the file
-   printer.  No bound on the stream. *)
-Theorem C11_no_overrun_streams : forall ops m sz sl',
-  (m = Fixed -> PRINT_RESERVE <= sz) -> chk CF 0 ops = Some sl' ->
-  exists s', run CF ops (init CF m sz) = Some s' /\ viol s' = false.
+   printer.  No bound on the stream.  The growing buffer's allocation policy is an ORACLE o (the block sizes the
+   reallocator hands back, 0 = failure): the statement holds for every oracle in which each block is at least the
+   previous one plus the reserve (alloc_ok), and the model then never raises its bad-oracle verdict. *)
+Theorem C11_no_overrun_streams : forall ops m sz o sl',
+  (m = Fixed -> PRINT_RESERVE <= sz) -> alloc_ok m sz o -> chk CF 0 ops = Some sl' ->
+  exists s', run CF ops (init CF m sz o) = Some s' /\ viol s' = false /\ obad s' = false.
 Proof. exact no_overrun_streams. Qed.
 Print Assumptions C11_no_overrun_streams.
 
@@ -28,48 +30,51 @@ Proof. exact value_streams_bounded. Qed.
 Print Assumptions C11_value_streams_bounded.
 
 (* Hence: printing any value terminates, stays inside the buffer and leaves it zero terminated. *)
-Theorem C11_no_overrun : forall F v m sz,
+Theorem C11_no_overrun : forall F v m sz o,
   0 <= indent F -> wfv PRINT_NUM_WRITE_MAX v = true -> is_fieldlike v = false ->
-  (m = Fixed -> PRINT_RESERVE <= sz) ->
-  exists s', run CF (root_ops ocfg_fixed F v) (init CF m sz) = Some s' /\ viol s' = false /\ term s' = true.
+  (m = Fixed -> PRINT_RESERVE <= sz) -> alloc_ok m sz o ->
+  exists s', run CF (root_ops ocfg_fixed F v) (init CF m sz o) = Some s' /\ viol s' = false /\ term s' = true.
 Proof. exact no_overrun_values. Qed.
 Print Assumptions C11_no_overrun.
 
 (* The three modes agree: the growing buffer and the file receive exactly the concatenated primitive bytes and
    return their number; the fixed buffer either does the same or reports an error (-1); it succeeds exactly
    when the text is shorter than size - reserve, so never with truncated text. *)
-Theorem C11_modes_agree_streams : forall ops szf szd sl',
+Theorem C11_modes_agree_streams : forall ops szf szd o sl',
   PRINT_RESERVE <= szf -> no_perr ops = true -> chk CF 0 (ops ++ [PFlushAll]) = Some sl' ->
+  good_orc PRINT_RESERVE (dyn_size CF szd) o -> nofail o = true ->
   exists sf sd sl,
-    run CF (ops ++ [PFlushAll]) (init CF Fixed szf) = Some sf /\
-    run CF (ops ++ [PFlushAll]) (init CF Dynamic szd) = Some sd /\
-    run CF (ops ++ [PFlushAll]) (init CF File 0) = Some sl /\
+    run CF (ops ++ [PFlushAll]) (init CF Fixed szf []) = Some sf /\
+    run CF (ops ++ [PFlushAll]) (init CF Dynamic szd o) = Some sd /\
+    run CF (ops ++ [PFlushAll]) (init CF File 0 []) = Some sl /\
     agree ops szf sf sd sl.
 Proof. exact modes_agree_streams. Qed.
 Print Assumptions C11_modes_agree_streams.
 
-Theorem C11_modes_agree : forall F v szf szd,
+Theorem C11_modes_agree : forall F v szf szd o,
   0 <= indent F -> wfv PRINT_NUM_WRITE_MAX v = true -> is_fieldlike v = false ->
   PRINT_RESERVE <= szf ->
+  good_orc PRINT_RESERVE (dyn_size CF szd) o -> nofail o = true ->
   let ops := vops ocfg_fixed F 0 PRINT_MAX_LEVELS v ++ (if pretty F then [PChar 10] else []) in
   no_perr ops = true ->
   exists sf sd sl,
-    run CF (root_ops ocfg_fixed F v) (init CF Fixed szf) = Some sf /\
-    run CF (root_ops ocfg_fixed F v) (init CF Dynamic szd) = Some sd /\
-    run CF (root_ops ocfg_fixed F v) (init CF File 0) = Some sl /\
+    run CF (root_ops ocfg_fixed F v) (init CF Fixed szf []) = Some sf /\
+    run CF (root_ops ocfg_fixed F v) (init CF Dynamic szd o) = Some sd /\
+    run CF (root_ops ocfg_fixed F v) (init CF File 0 []) = Some sl /\
     agree ops szf sf sd sl.
 Proof. exact modes_agree_values. Qed.
 Print Assumptions C11_modes_agree.
 
-Theorem C11_success_iff_fits : forall C ops sz s',
-  no_perr ops = true -> run C (ops ++ [PFlushAll]) (init C Fixed sz) = Some s' -> viol s' = false ->
+Theorem C11_success_iff_fits : forall C ops sz o s',
+  no_perr ops = true -> run C (ops ++ [PFlushAll]) (init C Fixed sz o) = Some s' -> viol s' = false ->
   (err s' = 0 <-> len (text ops) < sz - RSV C).
 Proof. exact fixed_success_iff_fits. Qed.
 Print Assumptions C11_success_iff_fits.
 
-(* Whatever is reported as success is the complete text, in every mode and for both code variants. *)
-Theorem C11_success_is_complete_text : forall C ops m sz s',
-  run C ops (init C m sz) = Some s' -> viol s' = false -> err s' = 0 ->
+(* Whatever is reported as success is the complete text, in every mode, for both code variants and for EVERY oracle
+   (also one with failed or too small allocations). *)
+Theorem C11_success_is_complete_text : forall C ops m sz o s',
+  run C ops (init C m sz o) = Some s' -> viol s' = false -> err s' = 0 ->
   r_text (observe s') = text ops /\ r_ret (observe s') = len (text ops) /\
   (m <> File -> cur s' = rev (text ops) /\ p s' = len (text ops) /\ out s' = [] /\ total s' = 0).
 Proof. exact output_is_text. Qed.
@@ -82,11 +87,20 @@ Proof. exact error_reported. Qed.
 Print Assumptions C11_error_reported.
 
 (* The pinned print_ex terminates as well when the flush area is not empty (no base64 in the stream). *)
-Theorem C11_pinned_terminates_when_flush_size_positive : forall ops m sz sl',
-  (m = Fixed -> PRINT_RESERVE < sz) -> chk CC 0 ops = Some sl' ->
-  exists s', run CC ops (init CC m sz) = Some s' /\ viol s' = false.
+Theorem C11_pinned_terminates_when_flush_size_positive : forall ops m sz o sl',
+  (m = Fixed -> PRINT_RESERVE < sz) -> (m = Dynamic -> good_orc PRINT_RESERVE (dyn_size CC sz) o /\ nofail o = true) ->
+  chk CC 0 ops = Some sl' ->
+  exists s', run CC ops (init CC m sz o) = Some s' /\ viol s' = false.
 Proof. exact pinned_code_terminates. Qed.
 Print Assumptions C11_pinned_terminates_when_flush_size_positive.
+
+(* Allocation policies covered by the side condition: the doubling of the pinned tree, growth by half plus the
+   reserve; any other policy only has to satisfy new >= old + reserve. *)
+Theorem C11_alloc_policies_covered :
+  (forall sz, PRINT_RESERVE <= sz -> sz + PRINT_RESERVE <= 2 * sz) /\
+  (forall sz, 0 <= sz -> sz + PRINT_RESERVE <= sz + sz / 2 + PRINT_RESERVE).
+Proof. exact (conj doubling_ok half_plus_reserve_ok). Qed.
+Print Assumptions C11_alloc_policies_covered.
 
 (* The extracted driver runs a variant that carries the remaining length like the C code; it is the same function. *)
 Theorem C11_fast_run_is_run : forall C ops s, run_f C ops s = run C ops s.
@@ -97,7 +111,7 @@ Print Assumptions C11_fast_run_is_run.
 
 (* fixed buffer of exactly the reserve: print_ex loops for any number of iterations *)
 Theorem C11_print_ex_nonterminating_refuted :
-  exists l, forall fuel, ex_loop CC fuel (check CC (init CC Fixed PRINT_RESERVE)) l = None.
+  exists l, forall fuel, ex_loop CC fuel (check CC (init CC Fixed PRINT_RESERVE [])) l = None.
 Proof. exact print_ex_nonterminating. Qed.
 Print Assumptions C11_print_ex_nonterminating_refuted.
 
@@ -105,7 +119,7 @@ Print Assumptions C11_print_ex_nonterminating_refuted.
 Theorem C11_closing_run_exceeds_reserve_refuted :
   exists v sz s',
     wfv PRINT_NUM_WRITE_MAX v = true /\ PRINT_RESERVE <= sz /\
-    run CC (root_ops ocfg_current F0 v) (init CC Fixed sz) = Some s' /\ viol s' = true /\
+    run CC (root_ops ocfg_current F0 v) (init CC Fixed sz []) = Some s' /\ viol s' = true /\
     chk CF 0 (root_ops ocfg_current F0 v) = None.
 Proof. exact closing_run_exceeds_reserve. Qed.
 Print Assumptions C11_closing_run_exceeds_reserve_refuted.
@@ -114,14 +128,14 @@ Print Assumptions C11_closing_run_exceeds_reserve_refuted.
 Theorem C11_separator_run_exceeds_reserve_refuted :
   exists sz s',
     PRINT_RESERVE <= sz /\
-    run CC (root_ops ocfg_current F2 nulls) (init CC Fixed sz) = Some s' /\ viol s' = true /\
+    run CC (root_ops ocfg_current F2 nulls) (init CC Fixed sz []) = Some s' /\ viol s' = true /\
     chk CF 0 (root_ops ocfg_current F2 nulls) = None.
 Proof. exact separator_run_exceeds_reserve. Qed.
 Print Assumptions C11_separator_run_exceeds_reserve_refuted.
 
 (* base64 in a growing (or fixed) buffer with 1..3 bytes left below the threshold never advances *)
 Theorem C11_base64_no_progress_refuted :
-  exists s l, md s = Dynamic /\ (exists pre, s = puts (init CC Dynamic 100) pre) /\
+  exists s l, md s = Dynamic /\ (exists pre, s = puts (init CC Dynamic 100 []) pre) /\
     forall fuel, b64_loop CC fuel s l = None.
 Proof. exact base64_no_progress. Qed.
 Print Assumptions C11_base64_no_progress_refuted.
@@ -133,7 +147,15 @@ Example C11_hypotheses_satisfiable :
   wfv PRINT_NUM_WRITE_MAX nulls = true /\
   (exists sl', chk CF 0 (root_ops ocfg_fixed F0 (chain 98)) = Some sl') /\
   option_map (fun s => (r_ret (observe s), r_viol (observe s)))
-    (run CF (root_ops ocfg_fixed F0 (chain 70)) (init CF Fixed 420)) = Some (-1, false) /\
+    (run CF (root_ops ocfg_fixed F0 (chain 70)) (init CF Fixed 420 [])) = Some (-1, false) /\
   option_map (fun s => (r_ret (observe s), r_viol (observe s)))
-    (run CF (root_ops ocfg_fixed F0 (chain 70)) (init CF Fixed 492)) = Some (427, false).
+    (run CF (root_ops ocfg_fixed F0 (chain 70)) (init CF Fixed 492 [])) = Some (427, false).
 Proof. vm_compute. repeat split; try reflexivity. eexists; reflexivity. Qed.
+
+(* an oracle that does not restore the reserve (64 -> 100 < 64 + 64) gets the distinguished verdict; a good one
+   (64 -> 160 -> 304, the growth-by-half policy) does not and yields the text *)
+Example C11_oracle_verdict :
+  option_map (fun s => r_obad (observe s)) (run CF (root_ops ocfg_fixed F0 (chain 20)) (init CF Dynamic 64 [100])) = Some true /\
+  option_map (fun s => (r_obad (observe s), r_ret (observe s), r_orc_left (observe s)))
+    (run CF (root_ops ocfg_fixed F0 (chain 20)) (init CF Dynamic 64 [160; 304])) = Some (false, 127, 0).
+Proof. vm_compute. split; reflexivity. Qed.
